@@ -120,7 +120,7 @@ func c17SeqUnit(unit string, env *fw.Env) *fw.Result {
 							problem = fmt.Sprintf("use-after-finish\n%s on a %s transaction returned %v, expected the closed error (sequence %v)", a, finished, err, seq)
 							return
 						}
-					} else if err != nil && !(ro && (a == "put" || a == "del")) && !(a == "get" && isNotFound(err)) {
+					} else if err != nil && !(ro && (a == "put" || a == "del" || a == "putbig")) && !(a == "get" && isNotFound(err)) {
 						problem = fmt.Sprintf("operation-failed\n%s failed with %v (sequence %v)", a, err, seq)
 						return
 					}
